@@ -49,7 +49,17 @@ def check_program(prog, st, tag=""):
     except model.OpFreeCycle:
         st.count("discard_op_free_cycle")
         return fails, None, None
-    text = render.render(prog).text
+    # every other program is written with drawn spellings (integer bases, quote styles, the deprecated header forms ...):
+    # the spelling tape is a function of the program, so no extra draws and the same shrinking
+    import hashlib
+    import json as _json
+
+    h = hashlib.sha1(_json.dumps(prog, sort_keys=True, default=str).encode()).digest()
+    if h[0] % 2:
+        st.count("spelled_rendering")
+        text = render.render(prog, render.Tape([b * 37 + i for i, b in enumerate(h)])).text
+    else:
+        text = render.render(prog).text
     comp, exc = call_guard(lambda: compile_text(text))
     if exc is not None:
         # C01 quantifies over programs the compiler ACCEPTS; a documented rejection is not a C01 matter
